@@ -4,8 +4,8 @@
    are Model/QueryV0.v and the C13_..._refuted theorems state what was wrong with them.
    [o] "returns" means: (exists v, o = Ok v) \/ o = Err -- neither Panic nor OutOfFuel. *)
 From LV Require Import Base.Bytes Model.Obj Model.DocQ Model.PageTree Model.Utf Model.Query Model.QueryV0
-  Gen.Consts Gen.QueryC Proofs.QueryProofs Proofs.QueryProofsWalk Proofs.QueryV0Proofs.
-From LV Require Model.Toc.
+  Gen.Consts Gen.QueryC Proofs.QueryProofs Proofs.QueryProofsWalk Proofs.QueryV0Proofs Proofs.QueryReal.
+From LV Require Model.Toc Model.A85 Model.StreamFilt Spec.StreamCodecSpec Proofs.QueryRealFilt.
 
 (* (1) dereference, as the counting loop it is, returns within DEREF_LIMIT + 2 iterations on every graph
    (reference cycles, dangling references), and is the limit-recursive function used by the other models. *)
@@ -182,6 +182,65 @@ Theorem C13_example_cycles :
   get_page_resources (fuel_resources w_cycles) w_cycles (1, 0)%N = Ok (None, []).
 Proof. exact example_cycles. Qed.
 
+(* ---- (9) the content-reading queries with lopdf's REAL stages (composition with C09 / C04) ----
+   (2) and (8) above take Stream::decompressed_content as an option-valued function: a type in which a panic cannot be
+   written.  Proofs/QueryReal.v restates the queries over OUTCOME-valued stages ([get_page_content_x dx]: a Panic /
+   OutOfFuel of the stage is the answer of the query, see C13_example_stage_panic_propagates) and instantiates the stage
+   with [decomp_real inflate lzw]: C09's value model of lopdf's filter chain (Model/StreamFilt.v) run side by side with
+   C04's site-explicit models of ASCII85 and the PNG predictor (Model/SafeFilt.v), around the two third-party decoders
+   [inflate] (flate2 ZlibDecoder::read_to_end) and [lzw] (weezl decode_all) -- Coq functions, i.e. assumed to RETURN
+   (what they return is irrelevant here; lopdf swallows their errors).  That is the only third-party fact left. *)
+
+(* Stream::decompressed_content answers a value or an error on every stream: never Panic (new: the one site of the value
+   model, png::decode_row's previous[i], always sees rows of equal length), never Fuel (C09_no_fuel) *)
+Theorem C13_decompressed_content_returns :
+  forall (inflate : bytes -> bytes) (lzw : bool -> bytes -> bytes) s,
+    (exists data, StreamFilt.decompressed_content inflate lzw s = A85.Ok data) \/
+    (exists e, StreamFilt.decompressed_content inflate lzw s = A85.Err e).
+Proof. exact QueryRealFilt.decompressed_content_returns. Qed.
+
+(* the chain with C04's panic sites explicit IS that value chain (C04_a85_no_panic, C04_predictor_no_panic,
+   C04_a85_terminates, C04_predictor_terminates discharge every site check) *)
+Theorem C13_filter_sites_never_fire :
+  forall (inflate : bytes -> bytes) (lzw : bool -> bytes -> bytes) s,
+    QueryRealFilt.decompressed_sites inflate lzw s =
+      QueryRealFilt.sres_of_res (StreamFilt.decompressed_content inflate lzw s) /\
+    ((exists data, QueryRealFilt.decompressed_sites inflate lzw s = QueryRealFilt.SiteOk data) \/
+     QueryRealFilt.decompressed_sites inflate lzw s = QueryRealFilt.SiteErr).
+Proof.
+  intros. split; [apply QueryRealFilt.decompressed_sites_eq | apply QueryRealFilt.decompressed_sites_returns].
+Qed.
+
+(* the adapter between the two monads: a stage that returns makes the lifted query equal to Query's on the forgotten stage *)
+Theorem C13_get_page_content_adapter :
+  forall (dx : dict -> bytes -> out bytes),
+    (forall sd c, (exists v, dx sd c = Ok v) \/ dx sd c = Err) ->
+    forall fuel m pid, get_page_content_x dx fuel m pid = get_page_content (forget_d dx) fuel m pid.
+Proof. intros dx H fuel m pid. apply get_page_content_x_eq. intros sd c. apply returns_iff. apply H. Qed.
+
+(* get_page_content on ANY object graph, with the real filter code, for ANY pair of decoders that return: Ok -- no Panic,
+   no OutOfFuel -- with the explicit fuel DEREF_LIMIT + 1 (the filter models' own fuel is internal: |data| rows); and the
+   value is the one Query.get_page_content computes on the runner's instantiation of [decomp] *)
+Theorem C13_get_page_content_total_real :
+  forall (inflate : bytes -> bytes) (lzw : bool -> bytes -> bytes) m pid fuel,
+    fuel_contents <= fuel ->
+    (exists b, get_page_content_x (decomp_real inflate lzw) fuel m pid = Ok b) /\
+    get_page_content_x (decomp_real inflate lzw) fuel m pid = get_page_content (decomp_opt inflate lzw) fuel m pid.
+Proof. exact get_page_content_total_real. Qed.
+
+(* the same with the Gallina decoders of C09 (Spec/Inflate.v, Spec/LzwSpec.v) in place of flate2 / weezl: nothing assumed *)
+Theorem C13_get_page_content_total_gallina :
+  forall m pid fuel, fuel_contents <= fuel ->
+    exists b, get_page_content_x (decomp_real StreamCodecSpec.gallina_inflate StreamCodecSpec.gallina_lzw) fuel m pid = Ok b.
+Proof. intros m pid fuel H. apply (get_page_content_total_real _ _ m pid fuel H). Qed.
+
+(* non-vacuity of the lifted model: a stage that panics / runs out of fuel makes the query answer just that *)
+Theorem C13_example_stage_panic_propagates :
+  get_page_content_x (fun _ _ => Panic POverflow) fuel_contents ex_content_objs (1, 0)%N = Panic POverflow /\
+  get_page_content_x (fun _ _ => OutOfFuel) fuel_contents ex_content_objs (1, 0)%N = OutOfFuel /\
+  get_page_content_x (decomp_real (fun _ => []) (fun _ _ => [])) fuel_contents ex_content_objs (1, 0)%N = Ok ex_content_plain.
+Proof. exact example_stage_panic_propagates. Qed.
+
 Print Assumptions C13_dereference_total.
 Print Assumptions C13_get_object_total.
 Print Assumptions C13_catalog_total.
@@ -202,3 +261,9 @@ Print Assumptions C13_get_named_destinations_refuted.
 Print Assumptions C13_get_page_images_refuted.
 Print Assumptions C13_witnesses_repaired.
 Print Assumptions C13_example_cycles.
+Print Assumptions C13_decompressed_content_returns.
+Print Assumptions C13_filter_sites_never_fire.
+Print Assumptions C13_get_page_content_adapter.
+Print Assumptions C13_get_page_content_total_real.
+Print Assumptions C13_get_page_content_total_gallina.
+Print Assumptions C13_example_stage_panic_propagates.
